@@ -34,7 +34,19 @@ func (w *verifWorld) listedAnywhere(c *verifContainer) bool {
 // balloon lists a container, the memory allocator holds nothing. A released
 // container is never listed again while the others are released.
 func VerifC09BalloonsQuiescence() {
-	w, err := verifNewPolicy(verifConfig())
+	cfg, machine := verifConfig()
+	if verifParam("pinMemoryChoice", 1) != 0 {
+		// memory pinning on, off for the whole policy, or off for balloon type a
+		switch verifChoice("pinMemory", 3) {
+		case 1:
+			off := false
+			cfg.PinMemory = &off
+		case 2:
+			off := false
+			cfg.BalloonDefs[0].PinMemory = &off
+		}
+	}
+	w, err := verifNewPolicy(cfg, machine)
 	if err != nil {
 		verifCover("config-rejected")
 		return
